@@ -307,6 +307,17 @@ func (x *Exec) frontBuiltin(env *SpecEnv, st *State, name string, args []TV) (TV
 			}
 		}
 		return TV{}, false
+	case "ismap":
+		// ismap(v): v (after unwrapping an interface) is a Go map value
+		if len(args) == 1 {
+			v := x.force(st, args[0].V)
+			if iv, ok := v.(VIface); ok && iv.Dyn != nil {
+				v = x.force(st, iv.Val)
+			}
+			_, isM := v.(VMap)
+			return TV{VScalar{BoolLit(isM)}, boolT}, true
+		}
+		return TV{}, false
 	case "dyn":
 		// dyn(i): the dynamic value of an interface value whose dynamic type is known on this path
 		if len(args) == 1 {
